@@ -107,12 +107,12 @@ func (core *JApiCore) setPathVariablesToCatalog() *jerr.JApiError {
 }
 
 func (core *JApiCore) checkPathSchema(s *jschema.JSchema) error {
-	if err := core.checkPathSchemaRoot(s); err != nil {
+	if err := core.checkPathSchemaRoot(s, map[string]struct{}{}); err != nil {
 		return err
 	}
 
 	for i := range s.ASTNode.Children {
-		if err := core.checkPathSchemaProperty(s.ASTNode.Children[i]); err != nil {
+		if err := core.checkPathSchemaProperty(s.ASTNode.Children[i], map[string]struct{}{}); err != nil {
 			return err
 		}
 	}
@@ -120,12 +120,20 @@ func (core *JApiCore) checkPathSchema(s *jschema.JSchema) error {
 	return nil
 }
 
-func (core *JApiCore) checkPathSchemaRoot(s *jschema.JSchema) error {
+// seen holds the user types already followed: types may refer to themselves
+// ("TYPE @a  @a // {nullable: true}").
+func (core *JApiCore) checkPathSchemaRoot(s *jschema.JSchema, seen map[string]struct{}) error {
 	if s.ASTNode.TokenType == schema.TokenTypeShortcut {
 		typeName := s.ASTNode.SchemaType
 		if typeName == "mixed" {
 			return errors.New(jerr.PathOrErr)
 		}
+
+		if _, ok := seen[typeName]; ok {
+			// only references, never an object
+			return errors.New(jerr.PathObjectErr)
+		}
+		seen[typeName] = struct{}{}
 
 		ut, ok := core.catalog.UserTypes.Get(typeName)
 		if !ok {
@@ -138,7 +146,7 @@ func (core *JApiCore) checkPathSchemaRoot(s *jschema.JSchema) error {
 			return errors.New(jerr.PathObjectErr)
 		}
 
-		return core.checkPathSchemaRoot(es.JSchema)
+		return core.checkPathSchemaRoot(es.JSchema, seen)
 	}
 
 	if s.ASTNode.TokenType != schema.TokenTypeObject {
@@ -200,7 +208,7 @@ func (core *JApiCore) checkPathSchemaPropertyInAllOf(typeName string) error {
 	return nil
 }
 
-func (core *JApiCore) checkPathSchemaProperty(an schema.ASTNode) error {
+func (core *JApiCore) checkPathSchemaProperty(an schema.ASTNode, seen map[string]struct{}) error {
 	if an.TokenType == schema.TokenTypeObject || an.TokenType == schema.TokenTypeArray {
 		return fmt.Errorf("%s (%s)", jerr.PathMultiLevelPropertyErr, an.Key)
 	}
@@ -210,7 +218,7 @@ func (core *JApiCore) checkPathSchemaProperty(an schema.ASTNode) error {
 		for _, v := range rule.Items {
 			switch v.TokenType {
 			case schema.TokenTypeShortcut:
-				if err := core.checkPathSchemaPropertyUserType(v.Value); err != nil {
+				if err := core.checkPathSchemaPropertyUserType(v.Value, seen); err != nil {
 					return err
 				}
 			case schema.TokenTypeObject:
@@ -223,7 +231,7 @@ func (core *JApiCore) checkPathSchemaProperty(an schema.ASTNode) error {
 			}
 		}
 	} else if an.TokenType == schema.TokenTypeShortcut {
-		if err := core.checkPathSchemaPropertyUserType(an.Value); err != nil {
+		if err := core.checkPathSchemaPropertyUserType(an.Value, seen); err != nil {
 			return err
 		}
 	}
@@ -231,7 +239,7 @@ func (core *JApiCore) checkPathSchemaProperty(an schema.ASTNode) error {
 	return nil
 }
 
-func (core *JApiCore) checkPathSchemaPropertyUserType(typeName string) error {
+func (core *JApiCore) checkPathSchemaPropertyUserType(typeName string, seen map[string]struct{}) error {
 	ut, ok := core.catalog.UserTypes.Get(typeName)
 	if !ok {
 		return fmt.Errorf(`%s (%s)`, jerr.UserTypeNotFound, typeName)
@@ -242,12 +250,17 @@ func (core *JApiCore) checkPathSchemaPropertyUserType(typeName string) error {
 		return nil
 	}
 
+	if _, ok := seen[typeName]; ok {
+		return nil // already inspected: a type that refers to itself
+	}
+	seen[typeName] = struct{}{}
+
 	rootNode, err := ut.Schema.GetAST()
 	if err != nil {
 		return errors.New(jerr.RuntimeFailure)
 	}
 
-	if err := core.checkPathSchemaProperty(rootNode); err != nil {
+	if err := core.checkPathSchemaProperty(rootNode, seen); err != nil {
 		return err
 	}
 
